@@ -162,6 +162,13 @@ func (b *Backend) Since(n int) []Call {
 	return append([]Call(nil), b.calls[n:]...)
 }
 
+// DebugState describes the in-flight callbacks.
+func (b *Backend) DebugState() string {
+	b.mu.Lock()
+	defer b.mu.Unlock()
+	return fmt.Sprintf("busy=%d inRead=%d waiting=%v plans=%d", b.busy, b.inRd, b.waiting, len(b.DataPlans))
+}
+
 // NumSessions is the number of sessions created so far.
 func (b *Backend) NumSessions() int {
 	b.mu.Lock()
